@@ -84,6 +84,7 @@ func (r *runCtx) runDownloader(sc *scenario, L, S, T uint64, db dbm.DB) {
 	}()
 	var err error
 	rounds := 0
+	t0 := time.Now()
 	for rounds = 1; rounds <= 4; rounds++ {
 		err = d.SyncBlockchain(noFork{})
 		if err == nil || !d.HasPotentialFork() {
@@ -95,6 +96,9 @@ func (r *runCtx) runDownloader(sc *scenario, L, S, T uint64, db dbm.DB) {
 	atomic.StoreInt32(&s.stop, 1)
 	<-done
 	<-relDone
+	if time.Since(t0) > 12*time.Second {
+		r.out.Emit(tr.M{"ev": "Unreliable", "sid": sid, "why": fmt.Sprintf("the sync took %v (a 20 s block time-out may have fired)", time.Since(t0))})
+	}
 	for _, rec := range s.served {
 		r.out.Emit(tr.M{"ev": "Wire", "sid": sid, "peer": rec.Peer, "from": s.rel(rec.From), "to": s.rel(rec.To), "blocks": rec.Blocks})
 	}
